@@ -1,40 +1,77 @@
 #!/usr/bin/env python3
-"""mutlab.py [seed names...] — re-runs every quick check against every confirmed seeded change, in a laboratory copy.
+"""mutlab.py <lab-id> <job>... — confirms seeded changes and runs every quick check against them, in a laboratory copy.
 
-Nothing here touches /repo or /verif: /repo is cloned to /tmp/repo-mut, /verif is copied to /tmp/verif-mut with its
-references to /repo redirected to the clone, each seeded patch is applied to the clone, all quick checks run in the
-copy, and the clone is reset. Results: seeded/<name>/caught.json in /verif (which checks alarm, and whether with a
-concrete failing input or as a broken obligation only) — the table of DESIGN.md §14 is made from these files
-(tools/seeded_table.py). The laboratory is removed at the end."""
+job = an existing seeded/<name>, or NEW:<ID>:<k> to take /tmp/mutout-<ID>/m<k>/{patch.diff,demo_test.go,notes.md}
+(written by a sub-agent that saw only the property text), confirm it and store it as seeded/<ID>-sm<k>.
+
+Nothing here touches /repo or the checks' own state in /verif: /repo is cloned to /tmp/repo-mut-<lab>, /verif is copied
+to /tmp/verif-mut-<lab> with its references to /repo redirected to the clone; each patch is applied to the clone, all
+quick checks run in the copy, the clone is reset. Confirmation = the change builds, the library's own test suite
+passes with it, the demonstration test fails with it and passes without it. Results go to seeded/<name>/meta.json and
+seeded/<name>/caught.json (which checks alarm, with a concrete failing input or as a broken obligation only);
+tools/seeded_table.py makes the table of DESIGN.md §14 from them. The laboratory is removed at the end."""
 import sys, os, subprocess, json, shutil, re
 ROOT = os.path.dirname(os.path.dirname(os.path.abspath(__file__)))
-LAB, CLONE = '/tmp/verif-mut', '/tmp/repo-mut'
+ENV = dict(os.environ, GOFLAGS='-mod=mod', GOPROXY='off', GOSUMDB='off', GOTOOLCHAIN='local')
 
 
 def sh(cmd, **kw):
-    return subprocess.run(cmd, capture_output=True, text=True, **kw)
+    try:
+        return subprocess.run(cmd, capture_output=True, text=True, env=ENV, **kw)
+    except subprocess.TimeoutExpired as e:
+        return subprocess.CompletedProcess(cmd, 124, e.stdout or '', e.stderr or '')
 
 
 def main():
-    names = sys.argv[1:] or sorted(os.listdir(os.path.join(ROOT, 'seeded')))
+    lab_id, jobs = sys.argv[1], sys.argv[2:]
+    LAB, CLONE = '/tmp/verif-mut-' + lab_id, '/tmp/repo-mut-' + lab_id
     shutil.rmtree(LAB, ignore_errors=True); shutil.rmtree(CLONE, ignore_errors=True)
     sh(['git', 'clone', '-q', '/repo', CLONE])
-    sh(['rsync', '-a', '--exclude', '.git', '--exclude', 'replays', ROOT + '/', LAB + '/'])
+    sh(['rsync', '-a', '--exclude', '.git', '--exclude', 'replays', '--exclude', 'seeded', ROOT + '/', LAB + '/'])
     for f in ('check', 'lib/judges.py', 'harness/go.mod'):
         p = os.path.join(LAB, f)
-        s = open(p).read().replace('/repo', CLONE)
-        open(p, 'w').write(s)
+        open(p, 'w').write(open(p).read().replace('/repo', CLONE))
     ids = [c['property_id'] for c in json.load(open(os.path.join(ROOT, 'MANIFEST.json')))['checks']]
-    for name in names:
+
+    def reset():
+        sh(['git', '-C', CLONE, 'checkout', '--', '.'])
+        sh(['git', '-C', CLONE, 'clean', '-fdq'])
+
+    for job in jobs:
+        if job.startswith('NEW:'):
+            _, pid, k = job.split(':')
+            src = '/tmp/mutout-%s/m%s' % (pid, k)
+            name = '%s-sm%s' % (pid, k)
+            d = os.path.join(ROOT, 'seeded', name)
+            if not os.path.exists(os.path.join(src, 'patch.diff')):
+                print(name, 'no patch', flush=True); continue
+            conf = {}
+            conf['patch_applies'] = sh(['git', '-C', CLONE, 'apply', os.path.join(src, 'patch.diff')]).returncode == 0
+            conf['compiles'] = sh(['go', 'build', './...'], cwd=CLONE).returncode == 0
+            conf['existing_tests_pass_with_change'] = sh(['go', 'test', '-vet=off', '-count=1', './...'], cwd=CLONE, timeout=1500).returncode == 0
+            shutil.copyfile(os.path.join(src, 'demo_test.go'), os.path.join(CLONE, 'zz_seed_demo_test.go'))
+            conf['demo_fails_with_change'] = sh(['go', 'test', '-vet=off', '-count=1', '-run', 'ZZSeed', '.'], cwd=CLONE, timeout=900).returncode != 0
+            sh(['git', '-C', CLONE, 'checkout', '--', '.'])
+            conf['demo_passes_on_clean_tree'] = sh(['go', 'test', '-vet=off', '-count=1', '-run', 'ZZSeed', '.'], cwd=CLONE, timeout=900).returncode == 0
+            reset()
+            if not all(conf.values()):
+                print(name, 'NOT CONFIRMED', conf, flush=True); continue
+            os.makedirs(d, exist_ok=True)
+            shutil.copyfile(os.path.join(src, 'patch.diff'), os.path.join(d, 'patch.diff'))
+            shutil.copyfile(os.path.join(src, 'demo_test.go'), os.path.join(d, 'demo_test.go.txt'))
+            notes = open(os.path.join(src, 'notes.md')).read() if os.path.exists(os.path.join(src, 'notes.md')) else ''
+            json.dump(dict(seed=name, breaks=pid, confirmed=conf, needs_to_manifest=notes[:3000]), open(os.path.join(d, 'meta.json'), 'w'), indent=1)
+        else:
+            name = job
         patch = os.path.join(ROOT, 'seeded', name, 'patch.diff')
         if not os.path.exists(patch):
             continue
         r = sh(['git', '-C', CLONE, 'apply', patch])
         if r.returncode != 0:
-            print(name, 'patch does not apply:', r.stderr[:200]); continue
+            print(name, 'patch does not apply:', r.stderr[:200], flush=True); continue
         res = {}
         for pid in ids:
-            p = sh([os.path.join(LAB, 'check'), pid, '--tier', 'quick'], cwd=LAB)
+            p = sh([os.path.join(LAB, 'check'), pid, '--tier', 'quick'], cwd=LAB, timeout=3600)
             v = [l for l in p.stdout.split('\n') if l.startswith('VIOLATION')]
             if p.returncode == 0 and not v:
                 continue
@@ -42,7 +79,7 @@ def main():
                             concrete=sum(1 for l in v if 'no-failing-input-found' not in l),
                             obligation_only=sum(1 for l in v if 'no-failing-input-found' in l),
                             first=(re.findall(r'^  (.*)$', p.stdout + p.stderr, re.M) or [''])[0][:300])
-        sh(['git', '-C', CLONE, 'checkout', '--', '.']); sh(['git', '-C', CLONE, 'clean', '-fdq'])
+        reset()
         json.dump(dict(seed=name, checks_run=ids, alarms=res), open(os.path.join(ROOT, 'seeded', name, 'caught.json'), 'w'), indent=1)
         print(name, {k: ('concrete' if v['concrete'] else 'obligation') for k, v in res.items()}, flush=True)
     shutil.rmtree(LAB, ignore_errors=True); shutil.rmtree(CLONE, ignore_errors=True)
